@@ -23,6 +23,7 @@ import (
 
 	ipfscluster "github.com/ipfs/ipfs-cluster"
 	"github.com/ipfs/ipfs-cluster/api"
+	"github.com/ipfs/ipfs-cluster/consensus/raft"
 
 	peer "github.com/libp2p/go-libp2p-core/peer"
 )
@@ -43,7 +44,7 @@ type realBackend struct {
 func newBackend(kind string, seed int64) (*realBackend, error) {
 	b := &realBackend{name: kind}
 	switch kind {
-	case "raft":
+	case "raft", "raft-noretry":
 		key, _, err := rig.NewKey()
 		if err != nil {
 			return nil, err
@@ -52,7 +53,11 @@ func newBackend(kind string, seed int64) (*realBackend, error) {
 		if err != nil {
 			return nil, err
 		}
-		p, err := rig.NewRaftPeer(rig.RaftOpts{Key: key, Dir: dir, TweakCluster: func(cfg *ipfscluster.Config) {
+		tweak := func(cfg *raft.Config) {}
+		if kind == "raft-noretry" {
+			tweak = func(cfg *raft.Config) { cfg.CommitRetries = 0 }
+		}
+		p, err := rig.NewRaftPeer(rig.RaftOpts{Key: key, Dir: dir, TweakRaft: tweak, TweakCluster: func(cfg *ipfscluster.Config) {
 			cfg.ReplicationFactorMin, cfg.ReplicationFactorMax = 1, 2
 			cfg.PeerWatchInterval = time.Hour
 		}})
@@ -219,6 +224,8 @@ func TestReal(t *testing.T) {
 		}
 	}()
 	nrec := 0
+	aborted := map[string]bool{}
+	recorded := map[string]int{}
 	for _, raw := range scripts {
 		var s realScriptT
 		if err := json.Unmarshal(raw, &s); err != nil {
@@ -234,9 +241,20 @@ func TestReal(t *testing.T) {
 			}
 			backends[s.Backend] = b
 		}
+		if aborted[s.Backend] {
+			continue
+		}
 		if err := b.load(s.Pre, s.Env.MS); err != nil {
-			res.Infra("script %d on %s: %v", s.ID, s.Backend, err)
-			return
+			// The set-up itself goes through the consensus component under test. When it stops working AFTER steps of
+			// this backend have been recorded (they are judged), the rest of this backend's histories is skipped and
+			// said so; before that it is an infrastructure problem.
+			if recorded[s.Backend] == 0 {
+				res.Infra("script %d on %s: %v", s.ID, s.Backend, err)
+				return
+			}
+			aborted[s.Backend] = true
+			res.Set("real_backend_aborted:"+s.Backend, err.Error())
+			continue
 		}
 		env := s.Env
 		env.Deferred = b.deferred
@@ -246,6 +264,7 @@ func TestReal(t *testing.T) {
 		if env.LogFail == nil {
 			env.LogFail = [][2]string{}
 		}
+		env.GetFail = []string{}
 		win := []winPsT{}
 		steps := s.Steps
 		if b.deferred {
@@ -311,6 +330,7 @@ func TestReal(t *testing.T) {
 				return
 			}
 			nrec++
+			recorded[s.Backend]++
 			res.Case(map[string]interface{}{"backend": s.Backend, "ps": before, "call": c, "win": rec.Obs.Win}, true)
 		}
 	}
